@@ -718,12 +718,31 @@ class TaintDomain(Domain):
         return {O}
 
     def ev_BoolOp(self, e, st):
+        # the value of `a and b` / `a or b` is one of the operands; an
+        # operand whose truth value is known (a constant) either ends the
+        # evaluation or is passed over
+        is_and = isinstance(e.op, ast.And)
         out = set()
-        for x in e.values:
+        live = True
+        for i, x in enumerate(e.values):
+            if not live:
+                break
             v = self.ev(x, st)
-            if not v and x is e.values[0]:
+            if not v and i == 0:
                 return frozenset()
-            out |= v
+            last = i == len(e.values) - 1
+            live = False
+            for a in v:
+                t = bool(a[1]) if kind(a) == 'K' else None
+                if last:
+                    out.add(a)
+                elif t is None:
+                    out.add(a)
+                    live = True
+                elif t == is_and:
+                    live = True           # passed over
+                else:
+                    out.add(a)            # short-circuit: this is the value
         return out or {O}
 
     def ev_Compare(self, e, st):
